@@ -220,14 +220,14 @@ Definition validate_zip_bytesio (L : limits) (pos : Z) (o : zip_oracle) : bresul
 Inductive event :=
   | EvOpen (c : N)                 (* ZipFile(...) constructed on container c *)
   | EvValidate (c : N) (ok : bool) (* validate_zipfile returned (true) / raised (false) *)
-  | EvRead (c : N)                 (* ZipFile.open / ZipFile.read of a member *)
+  | EvRead (c : N)                 (* ZipFile.open / ZipFile.read handed out a member stream *)
   | EvClose (c : N).               (* an open archive is closed (repeated close() calls are not events) *)
 
 Inductive zstate := Unopened | Validated | Closed | Failed.
 
 Inductive zop :=
   | OpInit (o : zip_oracle)   (* ZipContext(file_like) *)
-  | OpRead                    (* read_bytes / read_text / read_xml_root / open_stream *)
+  | OpRead (present : bool)   (* read_bytes / read_text / read_xml_root / open_stream; present = the member exists *)
   | OpQuery                   (* exists / namelist *)
   | OpClose.
 
@@ -240,7 +240,7 @@ Definition zstep (L : limits) (c : N) (s : zstate) (op : zop) : zstate * list ev
         | _ => (Failed, [EvOpen c; EvValidate c false; EvClose c])   (* open_zipfile closes and re-raises *)
         end
       else (Failed, [])
-  | Validated, OpRead => (Validated, [EvRead c])
+  | Validated, OpRead true => (Validated, [EvRead c])   (* a missing member raises KeyError: nothing is read *)
   | Validated, OpClose => (Closed, [EvClose c])
   | s, _ => (s, [])            (* no object (constructor raised), or zipfile refuses a closed archive *)
   end.
